@@ -725,10 +725,12 @@ func concScenario(ops []op, ini int, nsFlavour bool, bounds []int) explore.Scena
 		Body: func(x *explore.X) {
 			ctx := context.Background()
 			var st state.CoreState
+			// (always with a backing store attached: the store calls sit inside the operations' critical
+			// sections, and a change that opens a window around them shows only when there is a store)
 			if nsFlavour {
-				st = namespaced.NewState(inmem.Build)
+				st = hx.NewNamespaced(&hx.Log{})
 			} else {
-				st = inmem.NewState(hx.NS)
+				st = hx.NewInmem(&hx.Log{})
 			}
 			m0 := initials[ini].m.clone()
 			if r, ok := m0["a"]; ok {
